@@ -1,11 +1,11 @@
 package props
 
 import (
-	"strings"
 	"fmt"
 	"go/token"
 	"go/types"
 	"os"
+	"strings"
 
 	"golang.org/x/tools/go/ssa"
 
